@@ -62,39 +62,67 @@ def rule_entry(facts):
                                   "implies the whole input was consumed); found %s" % (q.split("::")[-1], mode.split("::")[-1], d), *loc(b)))
             continue
         # (b) on the Err path the pending error is pushed; on the Ok path nothing is pushed; output Some iff Ok
-        disc_locals = set()
-        for _, bl, s in assigns(b):
-            if s["rv"]["k"] == "discr" and s["rv"]["place"]["l"] == go_dest and not s["place"]["p"]:
-                disc_locals.add(s["place"]["l"])
-        okb = bool(disc_locals)
+        # how a path learns the outcome: a switch on the discriminant of the result, or on is_ok/is_err of it, or on
+        # is_some/is_none of `result.ok()`
+        def outcome_of_switch(t, choice):
+            op = mirq.operand_place(t["op"])
+            if op is None or op["p"]:
+                return None
+            for x in pv.of_local(op["l"]):
+                if x[0] == "discr" and any(y == ("local", go_dest) or (y[0] == "call" and False) for y in x[1]):
+                    return {0: "Ok", 1: "Err"}.get(choice)
+                if x[0] == "call" and x[1] in ("is_ok", "is_err", "is_some", "is_none") and x[3]:
+                    src = x[3][0]
+                    direct = any(y == ("local", go_dest) for y in src)
+                    via_ok = any(y[0] == "call" and y[1] == "ok" and any(z == ("local", go_dest) for z in y[3][0]) for y in src)
+                    if (x[1] in ("is_ok", "is_err") and direct) or (x[1] in ("is_some", "is_none") and via_ok):
+                        truth = (choice == "otherwise") if choice in (0, "otherwise") else None
+                        if truth is None:
+                            return None
+                        positive = x[1] in ("is_ok", "is_some")
+                        return "Ok" if truth == positive else "Err"
+            return None
+        # the result local as a provenance root: calls define it, so refer to it by its defining call
+        class _P(Prov):
+            def of_local(self_, l, depth=0):
+                if l == go_dest:
+                    return {("local", go_dest)}
+                return Prov.of_local(self_, l, depth)
+        pv_res = _P(b)
+        pv_keep, pv = pv, pv_res
+        okb = True
         nerr = nok = 0
         detail = []
-        for dl in disc_locals:
-            for path, val in _switch_var_paths(b, dl):
-                if val is None:
-                    continue
-                pushes = []
-                for (bb, idx) in path:
-                    t = b["blocks"][bb]["term"]
-                    f = callee_of(t) if t["k"] == "call" else None
-                    if f is not None and f["name"] in ("push", "extend", "insert", "append", "extend_from_slice", "push_within_capacity"):
-                        pushes.append((f["name"], t))
-                if val == 1:      # Err
-                    nerr += 1
-                    good = len(pushes) == 1 and pushes[0][0] == "push"
-                    if good:
-                        src = pv.of_operand(pushes[0][1]["args"][1]["op"])
-                        good = mirq.roots_mention(src, lambda x: isinstance(x, tuple) and x[0] == "call" and x[1] == "take_alt")
-                        tgt = pv.of_operand(pushes[0][1]["args"][0]["op"])
-                        good = good and mirq.roots_mention(tgt, lambda x: isinstance(x, tuple) and x[0] == "call" and x[1] == "into_errs")
-                    if not good:
-                        okb = False
-                        detail.append("Err path pushes %s" % [p[0] for p in pushes])
-                elif val == 0:    # Ok
-                    nok += 1
-                    if pushes:
-                        okb = False
-                        detail.append("Ok path pushes an error")
+        for path in mirq.paths(b):
+            val = None
+            for (bb, idx) in path:
+                t = b["blocks"][bb]["term"]
+                if t["k"] == "switch" and idx not in (None, "loop") and val is None:
+                    val = outcome_of_switch(t, mirq.switch_choice(b, bb, idx))
+            if val is None:
+                continue
+            pushes = []
+            for (bb, idx) in path:
+                t = b["blocks"][bb]["term"]
+                f = callee_of(t) if t["k"] == "call" else None
+                if f is not None and f["name"] in ("push", "extend", "insert", "append", "extend_from_slice", "push_within_capacity"):
+                    pushes.append((f["name"], t))
+            if val == "Err":
+                nerr += 1
+                good = len(pushes) == 1 and pushes[0][0] == "push"
+                if good:
+                    src = pv_keep.of_operand(pushes[0][1]["args"][1]["op"])
+                    good = mirq.roots_mention(src, lambda x: isinstance(x, tuple) and x[0] == "call" and x[1] == "take_alt")
+                    tgt = pv_keep.of_operand(pushes[0][1]["args"][0]["op"])
+                    good = good and mirq.roots_mention(tgt, lambda x: isinstance(x, tuple) and x[0] == "call" and x[1] == "into_errs")
+                if not good:
+                    okb = False
+                    detail.append("Err path pushes %s" % [p[0] for p in pushes])
+            else:
+                nok += 1
+                if pushes:
+                    okb = False
+                    detail.append("Ok path pushes an error")
         okb = okb and nerr >= 1 and nok >= 1
         r.ob(okb)
         if not okb:
@@ -108,8 +136,10 @@ def rule_entry(facts):
         if okc:
             o = pv.of_operand(news[0][1]["args"][0]["op"])
             kinds = sorted(x[1].split("::")[-1] for x in o if x[0] == "aggf")
-            okc = kinds == ["None", "Some"]
-            e = pv.of_operand(news[0][1]["args"][1]["op"])
+            # Some(out) on the Ok arm / None on the Err arm, or `result.ok()` (Some iff Ok by definition)
+            via_ok = len(o) == 1 and all(x[0] == "call" and x[1] == "ok" and any(z == ("local", go_dest) for z in x[3][0]) for x in o)
+            okc = kinds == ["None", "Some"] or via_ok
+            e = pv_keep.of_operand(news[0][1]["args"][1]["op"])
             okc = okc and mirq.roots_mention(e, lambda x: isinstance(x, tuple) and x[0] == "call" and x[1] == "into_errs")
         r.ob(okc)
         if not okc:
